@@ -102,7 +102,7 @@ package bytesconv
 //@   ensures err != nil ==> this.pos == old(this.pos)
 //@   ensures old(this.failed) ==> this.failed
 //@ interface network.Reader.Len(this) n
-//@   ensures n >= 0
+//@   ensures n >= 0 && (this.avail >= 0 ==> n == this.avail)
 //@ interface network.Reader.Release(this) err
 
 // ---- C01(c)/C04: chunk-size number ----
